@@ -11,7 +11,12 @@ What the TLA+ technique decides here is the tool-run CONTRACT (DESIGN section 6)
     inputs (gen/c06_inputs.py: structured single- and multi-field corruptions of every metadata object class of the 15
     mkbase profiles through the independent reader's location map, the C13 image states, damaged journals written by
     gen/jbd2write.py, damaged undo files, damaged qcow2 images, an external journal, raw byte strings, unstructured
-    byte mutations) x the tools and modes the property lists.  Every run is two trace lines {start: tool, mode, class}
+    byte mutations; plus the READER-BOUND families of spec/C06Readers.tla -- multi-field undo-header and key corruptions
+    placed on / around / between the bounds e2undo derives from the header, qcow2 header pairs around the converter's
+    bounds with the output file absent or present, summary counters on the boundaries of what resize2fs -P derives from
+    them, degenerate journal rings -- all with the checksums recomputed; TLC checks the readers' models (repaired reader
+    safe, catalogue adequate: a confused bound or a literal reader of the pinned tree misbehaves on some element) and
+    writes the catalogue the concretiser evaluates) x the tools and modes the property lists.  Every run is two trace lines {start: tool, mode, class}
     {end: exit status, signal, intercepted signal, timed out, sanitizer report kinds}; TLC validates every run against
     spec/Trace_ToolExit.tla (ObservedEnd step, Robust evaluated in the reached state; a failing run is printed as BADLINE
     with the names of the failing clauses and the scan continues).  The verdict of every run is TLC's.
@@ -107,7 +112,18 @@ def undo_invocations(base):
 
 
 def qcow_invocations(base):
-    return [Inv("e2image-conv", "e2image", "conv", ["@e2image", "-r", "{qcow}", "{out}"], True)]
+    # C06Readers OutStates: the output file of the conversion absent / present (an existing empty file)
+    return [Inv("e2image-conv", "e2image", "conv", ["@e2image", "-r", "{qcow}", "{out}"], True),
+            Inv("e2image-conv-over", "e2image", "conv", ["@e2image", "-r", "{qcow}", "{outexist}"], True)]
+
+
+RING_INVS = ("fsck-fn", "fsck-n", "fsck-pf", "fsck-fy", "dbg-R-logdump", "dbg-f-meta")       # everything that reads the journal
+SUM_INVS = ("resize2fs-P", "fsck-fn", "fsck-fy", "dumpe2fs", "e2freefrag", "e2image-r")       # quick: the readers of the summary counters
+UKEY_CORE = ("e2undo-n", "e2undo", "e2undo-f")
+
+
+def ring_invocations(base):
+    return [i._replace(core=True) for i in fs_invocations(base) if i.id in RING_INVS]
 
 
 def extj_invocations(base):
@@ -129,6 +145,7 @@ def raw_invocations(base):
     L += [Inv("raw-e2undo-n", "e2undo", "undo_n", ["@e2undo", "-n", "{undo}", "{goodimg}"], True),
           Inv("raw-e2undo-f", "e2undo", "undo", ["@e2undo", "-f", "{undo}", "{goodimg}"], True),
           Inv("raw-e2image-conv", "e2image", "conv", ["@e2image", "-r", "{qcow}", "{out}"], True),
+          Inv("raw-e2image-conv-over", "e2image", "conv", ["@e2image", "-r", "{qcow}", "{outexist}"], True),
           Inv("raw-fsck-fn-j", "e2fsck", "n", ["@e2fsck", "-fn", "-j", "{jdev}", "{goodimg}"], True),
           Inv("raw-logdump-f", "debugfs", "R", ["@debugfs", "-R", "logdump -a -f {jdev}", "{goodimg}"], True)]
     return L
@@ -146,6 +163,8 @@ def invocations_for(base):
         return extj_invocations(base)
     if k == "raw":
         return raw_invocations(base)
+    if k == "ring":
+        return ring_invocations(base)
     raise KeyError(k)
 
 
@@ -169,6 +188,12 @@ def plan(U, bases, tier, sd):
                 invs = [i._replace(core=True) if i.id == "e2image-rc-short" else i for i in invs]
         if base.kind == "undo" and u["target"] != "undo" or base.kind == "qcow" and u["target"] != "qcow":
             pass
+        if tier == "quick" and u["family"] == "sum":
+            invs = [i._replace(core=True) for i in invs if i.id in SUM_INVS]
+        if tier == "quick" and u["family"] == "ukey":         # many elements: the three modes, and for every second element one of the verbose / combined ones in turn
+            rest_ = [i for i in invs if i.id not in UKEY_CORE]
+            invs = [i for i in invs if i.id in UKEY_CORE] + ([rest_[(rot["ukey"] // 2) % len(rest_)]._replace(core=True)] if rot["ukey"] % 2 == 0 else [])
+            rot["ukey"] += 1
         if base.info.get("profile") == "mmp":       # a read-write open of an MMP file system sleeps 2 x interval + 1 = 11 s
             invs = [i for i in invs if not (i.tool == "e2fsck" and i.mode in ("p", "y"))]
         if tier == "thorough" and base.kind not in ("fs", "jrn", "c13"):
@@ -337,6 +362,10 @@ class Runner:
             if any("{outshort}" in a for a in inv.argv):
                 os.truncate(out, os.path.getsize(out) // 2)
             sub.update({"{outcopy}": out, "{outshort}": out})
+        if any("{outexist}" in a for a in inv.argv):
+            with open(out, "wb"):
+                pass
+            sub["{outexist}"] = out
         sub.update({"{%s}" % k: v for k, v in base.names.items()})
         argv = []
         for a in inv.argv:
@@ -361,7 +390,8 @@ class Runner:
         o = self.observe(argv, timeout)
         if cls == "ro" and any(os.stat(p_).st_mtime_ns != mt0[r] for r, p_ in files.items() if os.path.exists(p_)):
             self.have = None                          # a read-only run touched its input: next run starts from a fresh copy
-        o.update(id=u["id"] + "#" + inv.id, input=u["id"], inv=inv.id, tool=inv.tool, mode=inv.mode, cls=cls)
+        o.update(id=u["id"] + "#" + inv.id, input=u["id"], inv=inv.id, tool=inv.tool, mode=inv.mode, cls=cls,
+                 fam=u["family"].split(":")[1] if u["family"].startswith("regression:") else u["family"].split(":")[0])
         return o
 
     def observe(self, argv, timeout=TIMEOUT):
@@ -496,7 +526,9 @@ def finding_keys(r, failed):
     if "NoUndefinedBehaviour" in failed:
         keys += ["ub:" + k for k in r["san"] if k not in MEM_KINDS]
     if "TerminatedWithinBound" in failed:
-        keys.append("hang:%s:%s" % (r["tool"], r["inv"]))          # where it was when stopped (hang_frames) varies from run to run: not in the key
+        # where it was when stopped (hang_frames) varies from run to run: not in the key; the degenerate journal rings are a
+        # family of their own (hang:<tool>:<invocation>@ring)
+        keys.append("hang:%s:%s%s" % (r["tool"], r["inv"], "@ring" if r.get("fam") == "ring" else ""))
     if "NoSignal" in failed:
         last = [l for l in r["stderr"].splitlines() if l.strip() and not l.startswith(("Signal (", "/", "e2fsck(", "["))]
         keys.append("sig:%s:%d:%s" % (r["tool"], r["sig"] or r["caught"], _norm(last[-1])[:80] if last else r["mode"]))
@@ -610,6 +642,31 @@ def model_check(ev, work):
             fields, sorted(values), sorted(repairable), mine, sorted(G.VALUE_CLASSES), sorted(G.REPAIRABLE)))
     ev.cov["structured_catalogue"] = {"abstract_elements": int(m.group(1)), "object_classes": len(fields), "value_classes": len(values),
                                       "checked_by": "TLC (spec/C06Universe.tla: CatalogueOK) and compared with gen/c06_inputs.py FIELDS"}
+    # the reader-bound catalogue: reader models (repaired reader safe on every element, catalogue adequate), the scan of
+    # degenerate journal rings as a behaviour (ends within RL trips); written as JSON for the concretiser
+    outp = os.path.join(work, "c06readers.json")
+    r4 = T.tlc(os.path.join(SPEC, "C06Readers.tla"), os.path.join(SPEC, "MC_C06Readers.cfg"), workers=2, timeout=600, xmx="2g", env={"OUT": outp})
+    ev.add_tlc(r4, "C06Readers: ReaderSafeU/Q/S, AdequateU/Q/R, ReachesQ/S (ASSUME), ring scan Spec: ScanBounded, ScanEnds")
+    if r4.violated:
+        return "model: %s violated in C06Readers\n%s" % (r4.violated, r4.out[-2500:])
+    if not r4.ok or not os.path.exists(outp):
+        die_broken("TLC failed on C06Readers: %s\n%s" % (r4.error, r4.out[-2000:]))
+    r5 = T.tlc(os.path.join(SPEC, "C06Readers.tla"), os.path.join(SPEC, "MC_C06Readers_unbounded.cfg"), workers=2, timeout=600, xmx="2g",
+               env={"OUT": os.path.join(work, "c06readers_neg.json")})
+    ev.add_tlc(r5, "C06Readers DevScanUnbounded (negative control): ScanBounded must be violated")
+    if r5.violated != "ScanBounded":
+        die_broken("negative control: the literal journal scan does not violate ScanBounded on the ring catalogue -- %s %s\n%s"
+                   % (r5.violated, r5.error, r5.out[-1200:]))
+    try:
+        rc_ = json.load(open(outp))
+    except ValueError as e:
+        die_broken("C06Readers catalogue does not parse: %s" % e)
+    need = {"undo_hdr", "undo_key", "undo_scalings", "qcow_hdr", "qcow_out", "summary", "rings", "ring_fill"}
+    if set(rc_) != need or not all(len(rc_[k]) for k in need) or set(rc_["qcow_out"]) != {"absent", "exists"}:
+        die_broken("C06Readers catalogue incomplete: %s" % {k: len(v) for k, v in rc_.items()})
+    ev.cov["reader_bound_catalogue"] = dict({k: len(v) for k, v in rc_.items()},
+                                            checked_by="TLC (spec/C06Readers.tla, ASSUMEs + ring scan behaviour); evaluated on the base artefacts by gen/c06_inputs.py")
+    _W["readers"] = rc_
     return None
 
 
@@ -633,7 +690,9 @@ def _wrun(task):
 
 
 def execute(b, work, bases, pl):
-    tasks = [pl[i:i + 6] for i in range(0, len(pl), 6)]
+    # strided chunks of ~6 inputs: neighbours of the plan (inputs of one family, possibly all slow) go to different workers
+    nt = max(1, (len(pl) + 5) // 6)
+    tasks = [pl[i::nt] for i in range(nt)]
     results = []
     t0, mark = time.time(), 20000
     with cf.ProcessPoolExecutor(max_workers=JOBS, initializer=_winit, initargs=(b, work, bases)) as ex:
@@ -692,7 +751,11 @@ def regression_inputs(b, work, bases, have):
     return out
 
 
-QUICK_CAPS = {"asis:c13": 32, "asis": 40, "struct1": 10, "structN": 6, "unstruct": 2}
+ALL = 10 ** 9
+QUICK_CAPS = {"asis:c13": 32, "asis": 40, "struct1": 10, "structN": 6, "unstruct": 2,
+              # reader-bound families: the pair catalogues are sampled per base kind; ukey / qhdr1 / sum / ring are enumerated for
+              # one base per run (gen.reader_families) and taken whole
+              "uhdr": 48, "qhdr2": 60, "ukey": ALL, "qhdr1": ALL, "sum": ALL, "ring": ALL}
 
 
 def build_all(tier):
@@ -716,12 +779,18 @@ def run(tier):
         if mc_err:
             vd.violation("model", mc_err[:300], {"tlc": mc_err})
         t0 = time.time()
+        RC = _W.get("readers")
+        if RC is None:                      # a model violation was reported before the catalogue was written
+            return vd.finish()
         try:
-            bases = G.build_bases(b, tool_env(b), os.path.join(work, "bases"), tier, seed())
+            bases = G.build_bases(b, tool_env(b), os.path.join(work, "bases"), tier, seed(), rings=G.ring_ids(RC, tier, seed()))
         except G.GenError as e:
             die_broken("input generator failed: %s" % e)
         positive_control(ev, b, work, bases)
-        U = G.universe(bases, tier, seed())
+        try:
+            U = G.universe(bases, tier, seed()) + G.reader_families(bases, RC, tier, seed())
+        except G.GenError as e:
+            die_broken("input generator failed: %s" % e)
         nU = len(U)
         if tier == "quick":
             U = G.sample_quick(U, seed(), QUICK_CAPS)
